@@ -160,6 +160,10 @@ func H_C13() {
 			bounded = true
 		}
 	}
+	denyFirst := vx.Param("DENYAPP", 0) == 1 // the shared log's controller refuses the append of goroutine 0
+	if denyFirst {
+		L.AccessController = &denyPayload{p: []byte{'c', '0'}, inner: L.AccessController}
+	}
 	before := entriesOf(L)
 	results := make([]copResult, G)
 	var wg sync.WaitGroup
@@ -190,6 +194,11 @@ func H_C13() {
 		vx.Assert("C13", r.done, "every operation returns")
 		switch r.op {
 		case cAppend:
+			if denyFirst && g == 0 {
+				vx.Assert("C13", r.err != nil, "an append the controller refuses reports an error")
+				vx.Cover("refused-concurrent-append")
+				continue
+			}
 			vx.Assert("C13", r.err == nil && r.entry != nil, "a concurrent append succeeds")
 			if r.entry != nil {
 				n := 0
